@@ -145,6 +145,7 @@ Section Main.
   Variable ord : nat -> list gid.
   Variable sc : scen.
   Variable init : store.
+  Variable br0 : option brst.      (* the request's status object while the attempt runs *)
   Notation exec := (Binder.exec faults dp ord).
   Notation step := (Binder.step faults dp).
 
@@ -177,7 +178,7 @@ Section Main.
 
   Definition INV (s : state) : Prop :=
     G s /\ marks_none s /\ J (s_store s) (s_mem s) /\ K (s_store s)
-    /\ p_node (self (s_store s)) = 0 /\ br (s_store s) = br init /\ node_ok (s_store s) = node_ok init
+    /\ p_node (self (s_store s)) = 0 /\ br (s_store s) = br0 /\ node_ok (s_store s) = node_ok init
     /\ (SH init -> SH (s_store s)).
 
   (** the in-memory pod's labels are the server's *)
@@ -202,7 +203,7 @@ Section Main.
     INV s -> not_bind c -> step c s = (s1, r1) ->
     (reached dp c s s1 r1 ->
        base (s_store s1) /\ p_node (self (s_store s1)) = 0 /\ J (s_store s1) (s_mem s) /\ K (s_store s1)
-       /\ br (s_store s1) = br init /\ node_ok (s_store s1) = node_ok init /\ (SH (s_store s) -> SH (s_store s1))) ->
+       /\ br (s_store s1) = br0 /\ node_ok (s_store s1) = node_ok init /\ (SH (s_store s) -> SH (s_store s1))) ->
     INV s1.
   Proof.
     intros (HG & (Hk & Hke) & HJ & HK & Hn & Hbr & Hno & Hsh) Hnb E Hre.
@@ -824,5 +825,348 @@ Section Main.
     (destruct c' as [vc |]; [destruct (opt_cval_eqb c (Some vc)) eqn:Ec; [apply opt_cval_eqb_eq in Ec; subst c |] | rewrite (H3 eq_refl)]);
     (destruct d' as [vd |]; [destruct (opt_cval_eqb d (Some vd)) eqn:Ed; [apply opt_cval_eqb_eq in Ed; subst d |] | rewrite (H4 eq_refl)]);
     reflexivity.
+  Qed.
+
+  Definition KF : Prop := sc_fraction sc && sc_cmann sc = true.
+
+  (** nothing but the two config maps changed *)
+  Definition frame_cm (s s' : state) : Prop :=
+    s_mem s' = s_mem s /\ self (s_store s') = self (s_store s)
+    /\ self_alive (s_store s') = self_alive (s_store s) /\ others (s_store s') = others (s_store s)
+    /\ br (s_store s') = br (s_store s) /\ node_ok (s_store s') = node_ok (s_store s)
+    /\ s_nfail s <= s_nfail s'.
+
+  Lemma frame_cm_refl s : frame_cm s s.
+  Proof. unfold frame_cm. repeat split; auto. Qed.
+
+  Lemma frame_cm_trans a b c : frame_cm a b -> frame_cm b c -> frame_cm a c.
+  Proof.
+    intros (A1 & A2 & A3 & A4 & A5 & A6 & A7) (B1 & B2 & B3 & B4 & B5 & B6 & B7).
+    unfold frame_cm. repeat split; try congruence. lia.
+  Qed.
+
+  Definition same_but_cm (st st' : store) : Prop :=
+    self st' = self st /\ self_alive st' = self_alive st /\ others st' = others st
+    /\ br st' = br st /\ node_ok st' = node_ok st.
+
+  Lemma cm_put_same x v st : same_but_cm st (cm_put x v st).
+  Proof. unfold same_but_cm. destruct x; simpl; auto. Qed.
+
+  Lemma cm_get_put x v st : x <> CmOther -> cm_get x (cm_put x v st) = v.
+  Proof. destruct x; simpl; auto. contradiction. Qed.
+
+  Lemma cm_get_put_other x y v st : y <> x -> cm_get y (cm_put x v st) = cm_get y st.
+  Proof. destruct x, y; simpl; auto; contradiction. Qed.
+
+  Lemma step_cm c s s1 r1 :
+    INV s -> KF -> not_bind c -> step c s = (s1, r1) ->
+    (reached dp c s s1 r1 -> same_but_cm (s_store s) (s_store s1)) ->
+    INV s1 /\ frame_cm s s1.
+  Proof.
+    intros HI HK Hnb E Hre.
+    pose proof (step_spec _ _ _ _ _ _ E) as (Hm & _ & _ & Hcase).
+    assert (HI1 : INV s1).
+    { eapply INV_step; eauto. intros Hr. destruct (Hre Hr) as (A1 & A2 & A3 & A4 & A5).
+      destruct HI as (HG & _ & HJ & _ & Hn & Hbr & Hno & _).
+      destruct HG as ((Ha & Hn0 & Hrs & Hp & Ho) & _).
+      split; [unfold base; rewrite A1, A2, A3; auto 10 |].
+      split; [rewrite A1; exact Hn |]. split; [unfold J; rewrite A1; exact HJ |].
+      split; [left; exact HK |]. split; [congruence |]. split; [congruence |].
+      intros Hsh. unfold SH, rsv_only, names_ok in *. rewrite A3. exact Hsh. }
+    split; [exact HI1 |]. destruct Hcase as [Hf | Hr].
+    - destruct Hf as (_ & Hst & Hnf & _). unfold frame_cm. rewrite Hst. repeat split; auto. lia.
+    - destruct (Hre Hr) as (A1 & A2 & A3 & A4 & A5). destruct Hr as (_ & _ & Hnf & _).
+      unfold frame_cm. repeat split; auto. lia.
+  Qed.
+
+  Definition cm_post (x : cmref) (s s' : state) : Prop :=
+    INV s' /\ frame_cm s s' /\ (forall y, y <> x -> cm_get y (s_store s') = cm_get y (s_store s)).
+
+  (** UpsertJobConfigMap *)
+  Lemma upsert_cm_spec x s :
+    INV s -> KF -> x <> CmOther ->
+    let s' := fst (exec (upsert_cm x) s) in
+    let r := snd (exec (upsert_cm x) s) in
+    cm_post x s s' /\ (r = false -> cm_get x (s_store s') <> None) /\ (s_nfail s' = s_nfail s -> r = false).
+  Proof.
+    intros HI HK Hx. unfold upsert_cm. apin E0 s1 r1.
+    destruct (ro_step (AGetCM x) _ _ _ HI eq_refl E0) as (HI1 & Hst1 & Hm1 & Hn1 & Hlv1).
+    assert (F1 : frame_cm s s1) by (unfold frame_cm; rewrite Hst1, Hm1; repeat split; auto).
+    assert (Hget : s_nfail s1 = s_nfail s -> r1 = match cm_get x (s_store s) with Some v => RCM v | None => RNotFound end).
+    { intros Hq. destruct (Hlv1 Hq) as (-> & _). reflexivity. }
+    assert (Hdone : forall P : prog bool, P = Ret true -> (s_nfail s1 = s_nfail s -> False) ->
+              cm_post x s (fst (exec P s1)) /\ (snd (exec P s1) = false -> cm_get x (s_store (fst (exec P s1))) <> None)
+              /\ (s_nfail (fst (exec P s1)) = s_nfail s -> snd (exec P s1) = false)).
+    { intros P -> Hne. cbn [Binder.exec fst snd]. split; [| split; [discriminate | intros Hq; exfalso; auto]].
+      split; [exact HI1 |]. split; [exact F1 |]. intros y _. rewrite Hst1. reflexivity. }
+    assert (Hwrite : forall c, not_bind c ->
+              (forall s2 r2, reached dp c s1 s2 r2 ->
+                 (exists v, s_store s2 = cm_put x (Some v) (s_store s1) /\ r2 = ROk) \/ (s_store s2 = s_store s1 /\ r2 <> ROk /\ resp_ok r2 = false)) ->
+              (s_nfail s1 = s_nfail s -> forall s2 r2, reached dp c s1 s2 r2 -> r2 = ROk) ->
+              let P := Api c (fun r2 : resp => Ret (negb (resp_ok r2))) in
+              cm_post x s (fst (exec P s1)) /\ (snd (exec P s1) = false -> cm_get x (s_store (fst (exec P s1))) <> None)
+              /\ (s_nfail (fst (exec P s1)) = s_nfail s -> snd (exec P s1) = false)).
+    { intros c Hnb Hre Hok P. unfold P. apin E2 s2 r2. cbn [Binder.exec fst snd].
+      destruct (step_cm c _ _ _ HI1 HK Hnb E2) as (HI2 & F2).
+      { intros Hr. destruct (Hre _ _ Hr) as [(v & Hst & _) | (Hst & _)]; rewrite Hst; [apply cm_put_same |].
+        unfold same_but_cm. auto. }
+      pose proof (step_spec _ _ _ _ _ _ E2) as (_ & _ & _ & Hcase).
+      destruct (step_nfail _ _ _ _ E2) as (Hle & _ & Hrch).
+      split; [split; [exact HI2 |]; split; [eapply frame_cm_trans; eauto |] |].
+      - intros y Hy. destruct Hcase as [Hf | Hr].
+        + destruct Hf as (_ & Hst & _). rewrite Hst, Hst1. reflexivity.
+        + destruct (Hre _ _ Hr) as [(v & Hst & _) | (Hst & _)]; rewrite Hst, <- Hst1; [apply cm_get_put_other, Hy | reflexivity].
+      - split.
+        + intros Hr2. destruct Hcase as [Hf | Hr].
+          * destruct Hf as (-> & _). discriminate.
+          * destruct (Hre _ _ Hr) as [(v & Hst & _) | (_ & _ & Hbad)].
+            { rewrite Hst, cm_get_put; [discriminate | exact Hx]. }
+            { rewrite Hbad in Hr2. discriminate. }
+        + intros Hq. assert (Hq1 : s_nfail s1 = s_nfail s) by (destruct F2 as (_&_&_&_&_&_&?); lia).
+          assert (Hq2 : s_nfail s2 = s_nfail s1) by lia.
+          rewrite (Hok Hq1 _ _ (Hrch Hq2)). reflexivity. }
+    destruct r1 as [| | | | | | v | | |];
+      try (apply Hdone; [reflexivity | intros Hq; specialize (Hget Hq); destruct (cm_get x (s_store s)); discriminate]).
+    - (* NotFound: create *)
+      apply (Hwrite (ACreateCM x) I).
+      + intros s2 r2 (_ & _ & _ & Hd & _). cbn [is_watch] in Hd.
+        destruct (do_create_cm _ _ _ _ _ Hx Hd) as [(_ & Hst & ->) | (_ & Hst & ->)]; [right | left; eauto].
+        split; [exact Hst |]. split; [discriminate | reflexivity].
+      + intros Hq s2 r2 (_ & _ & _ & Hd & _). cbn [is_watch] in Hd. specialize (Hget Hq).
+        destruct (do_create_cm _ _ _ _ _ Hx Hd) as [(Hne & _) | (_ & _ & ->)]; [| reflexivity].
+        rewrite Hst1 in Hne. destruct (cm_get x (s_store s)); [discriminate | contradiction].
+    - (* found: patch *)
+      assert (Hp : forall o cl, 
+                cm_post x s (fst (exec (Api (APatchCM x o cl []) (fun r2 : resp => Ret (negb (resp_ok r2)))) s1))
+                /\ (snd (exec (Api (APatchCM x o cl []) (fun r2 : resp => Ret (negb (resp_ok r2)))) s1) = false ->
+                    cm_get x (s_store (fst (exec (Api (APatchCM x o cl []) (fun r2 : resp => Ret (negb (resp_ok r2)))) s1))) <> None)
+                /\ (s_nfail (fst (exec (Api (APatchCM x o cl []) (fun r2 : resp => Ret (negb (resp_ok r2)))) s1)) = s_nfail s ->
+                    snd (exec (Api (APatchCM x o cl []) (fun r2 : resp => Ret (negb (resp_ok r2)))) s1) = false)).
+      { intros o cl. apply (Hwrite (APatchCM x o cl []) I).
+        - intros s2 r2 (_ & _ & _ & Hd & _). cbn [is_watch] in Hd. apply do_patch_cm in Hd.
+          destruct (cm_get x (s_store s1)); destruct Hd as (Hst & ->); [left; eauto | right].
+          split; [exact Hst |]. split; [discriminate | reflexivity].
+        - intros Hq s2 r2 (_ & _ & _ & Hd & _). cbn [is_watch] in Hd. apply do_patch_cm in Hd.
+          specialize (Hget Hq). rewrite Hst1 in Hd.
+          destruct (cm_get x (s_store s)); [destruct Hd as (_ & ->); reflexivity | discriminate]. }
+      destruct (cm_owned v); apply Hp.
+  Qed.
+
+  Definition keeps_keys (f : cdata -> cdata) : Prop :=
+    forall d k, data_get k (f d) = None -> data_get k d = None.
+
+  (** UpdateConfigMapEnvironmentVariable *)
+  Lemma update_cm_spec x f s :
+    INV s -> KF -> x <> CmOther -> keeps_keys f ->
+    let s' := fst (exec (update_cm x f) s) in
+    let r := snd (exec (update_cm x f) s) in
+    cm_post x s s'
+    /\ (r = false -> exists v, cm_get x (s_store s) = Some v
+                             /\ cm_get x (s_store s') = Some (mkCM (cm_owned v) (f (cm_data v))))
+    /\ (s_nfail s' = s_nfail s -> cm_get x (s_store s) <> None -> r = false).
+  Proof.
+    intros HI HK Hx Hf. unfold update_cm. apin E0 s1 r1.
+    destruct (ro_step (AGetCM x) _ _ _ HI eq_refl E0) as (HI1 & Hst1 & Hm1 & Hn1 & Hlv1).
+    assert (F1 : frame_cm s s1) by (unfold frame_cm; rewrite Hst1, Hm1; repeat split; auto).
+    assert (Hget : s_nfail s1 = s_nfail s -> r1 = match cm_get x (s_store s) with Some v => RCM v | None => RNotFound end).
+    { intros Hq. destruct (Hlv1 Hq) as (-> & _). reflexivity. }
+    destruct r1 as [| | | | | | v | | |];
+      try (cbn [Binder.exec fst snd]; split; [split; [exact HI1 |]; split; [exact F1 |]; intros y _; rewrite Hst1; reflexivity |];
+           split; [discriminate |]; intros Hq Hne; specialize (Hget Hq); destruct (cm_get x (s_store s)); [discriminate | contradiction]).
+    (* the config map was read *)
+    assert (Hv : cm_get x (s_store s) = Some v).
+    { pose proof (step_spec _ _ _ _ _ _ E0) as (_ & _ & _ & [Hf0 | Hr]).
+      - destruct Hf0 as (Hq & _). discriminate.
+      - destruct Hr as (_ & _ & _ & Hd & _). cbn [is_watch] in Hd. apply do_get_cm in Hd as (_ & Hd).
+        destruct (cm_get x (s_store s)); [injection Hd as ->; reflexivity | discriminate]. }
+    apin E2 s2 r2. cbn [Binder.exec fst snd].
+    set (sets := data_diff (cm_data v) (f (cm_data v))).
+    assert (Hreach : reached dp (APatchCM x false false sets) s1 s2 r2 ->
+              s_store s2 = cm_put x (Some (mkCM (cm_owned v) (f (cm_data v)))) (s_store s1) /\ r2 = ROk).
+    { intros (_ & _ & _ & Hd & _). cbn [is_watch] in Hd. apply do_patch_cm in Hd. rewrite Hst1, Hv in Hd.
+      destruct Hd as (Hst & ->). split; [| reflexivity]. rewrite Hst, Hst1. unfold sets.
+      rewrite data_patch; [reflexivity | apply Hf]. }
+    destruct (step_cm (APatchCM x false false sets) _ _ _ HI1 HK I E2) as (HI2 & F2).
+    { intros Hr. destruct (Hreach Hr) as (Hst & _). rewrite Hst. apply cm_put_same. }
+    pose proof (step_spec _ _ _ _ _ _ E2) as (_ & _ & _ & Hcase).
+    destruct (step_nfail _ _ _ _ E2) as (Hle & _ & Hrch).
+    split; [split; [exact HI2 |]; split; [eapply frame_cm_trans; eauto |] |].
+    - intros y Hy. destruct Hcase as [Hf0 | Hr].
+      + destruct Hf0 as (_ & Hst & _). rewrite Hst, Hst1. reflexivity.
+      + destruct (Hreach Hr) as (Hst & _). rewrite Hst, <- Hst1. apply cm_get_put_other, Hy.
+    - split.
+      + intros Hr2. exists v. split; [exact Hv |]. destruct Hcase as [Hf0 | Hr].
+        * destruct Hf0 as (-> & _). discriminate.
+        * destruct (Hreach Hr) as (Hst & _). rewrite Hst. apply cm_get_put, Hx.
+      + intros Hq _. assert (Hq2 : s_nfail s2 = s_nfail s1) by (destruct F2 as (_&_&_&_&_&_&?); lia).
+        destruct (Hreach (Hrch Hq2)) as (_ & ->). reflexivity.
+  Qed.
+
+  Lemma keeps_set_visible idxs : keeps_keys (set_visible idxs).
+  Proof.
+    intros [a b c d] k. unfold set_visible. cbn [data_get d_visbc].
+    destruct d; destruct k; simpl; intros H; auto; discriminate.
+  Qed.
+
+  Lemma keeps_set_portion : keeps_keys set_portion.
+  Proof. intros [a b c d] k. unfold set_portion. destruct k; simpl; intros H; auto; discriminate. Qed.
+
+  Definition vis_cm : cmref := if sc_vis_in_spec sc then CmCap else CmEvar.
+
+  Definition cm_facts (idxs : list nat) (st : store) : Prop :=
+    cm_cap st <> None /\ cm_evar st <> None
+    /\ cm_value vis_cm EVisible st = Some (VList idxs)
+    /\ cm_value CmCap EPortion st = Some VPortion /\ cm_value CmCap ENumGpusBC st = Some VPortion.
+
+  Lemma get_set_visible idxs d : data_get EVisible (set_visible idxs d) = Some (VList idxs).
+  Proof. destruct d as [a b c e]. unfold set_visible. cbn [data_get d_visbc]. destruct e; reflexivity. Qed.
+
+  Lemma get_set_portion d :
+    data_get EPortion (set_portion d) = Some VPortion /\ data_get ENumGpusBC (set_portion d) = Some VPortion
+    /\ data_get EVisible (set_portion d) = data_get EVisible d.
+  Proof. destruct d as [a b c e]. unfold set_portion. simpl. auto. Qed.
+
+  (** gpusharing.PreBind *)
+  Lemma gpusharing_prebind_spec idxs s :
+    INV s -> sc_fraction sc = true ->
+    let s' := fst (exec (gpusharing_prebind sc idxs) s) in
+    let r := snd (exec (gpusharing_prebind sc idxs) s) in
+    INV s' /\ frame_cm s s' /\ (r = false -> cm_facts idxs (s_store s'))
+    /\ (s_nfail s' = s_nfail s -> sc_cmann sc = true -> r = false).
+  Proof.
+    intros HI Hfr. unfold gpusharing_prebind. destruct (sc_cmann sc) eqn:Ecm; cbn [negb].
+    2: { cbn [Binder.exec fst snd]. split; [exact HI |]. split; [apply frame_cm_refl |].
+         split; [discriminate | intros _ Hx; discriminate]. }
+    assert (HK : KF) by (unfold KF; rewrite Hfr, Ecm; reflexivity).
+    assert (Hvx : vis_cm <> CmOther) by (unfold vis_cm; destruct (sc_vis_in_spec sc); discriminate).
+    (* upsert capabilities *)
+    rewrite exec_bind.
+    destruct (upsert_cm_spec CmCap s HI HK ltac:(discriminate)) as ((A1 & A2 & A3) & A4 & A5).
+    destruct (exec (upsert_cm CmCap) s) as [s1 e1]. cbn [fst snd] in *.
+    destruct e1.
+    { cbn [Binder.exec fst snd]. split; [exact A1 |]. split; [exact A2 |]. split; [discriminate |].
+      intros Hq _. specialize (A5 Hq). discriminate. }
+    specialize (A4 eq_refl).
+    (* upsert env *)
+    rewrite exec_bind.
+    destruct (upsert_cm_spec CmEvar s1 A1 HK ltac:(discriminate)) as ((B1 & B2 & B3) & B4 & B5).
+    destruct (exec (upsert_cm CmEvar) s1) as [s2 e2]. cbn [fst snd] in *.
+    pose proof (frame_cm_trans _ _ _ A2 B2) as F2.
+    destruct e2.
+    { cbn [Binder.exec fst snd]. split; [exact B1 |]. split; [exact F2 |]. split; [discriminate |].
+      intros Hq _. destruct A2 as (_&_&_&_&_&_&?). destruct B2 as (_&_&_&_&_&_&?).
+      specialize (B5 ltac:(lia)). discriminate. }
+    specialize (B4 eq_refl).
+    assert (Hcap2 : cm_cap (s_store s2) <> None).
+    { pose proof (B3 CmCap ltac:(discriminate)) as Hq. cbn [cm_get] in Hq. rewrite Hq. exact A4. }
+    assert (Hevar2 : cm_evar (s_store s2) <> None) by exact B4.
+    (* visible devices *)
+    rewrite exec_bind. fold vis_cm.
+    destruct (update_cm_spec vis_cm (set_visible idxs) s2 B1 HK Hvx (keeps_set_visible idxs))
+      as ((C1 & C2 & C3) & C4 & C5).
+    destruct (exec (update_cm vis_cm (set_visible idxs)) s2) as [s3 e3]. cbn [fst snd] in *.
+    pose proof (frame_cm_trans _ _ _ F2 C2) as F3.
+    assert (Hvis2 : cm_get vis_cm (s_store s2) <> None).
+    { unfold vis_cm. destruct (sc_vis_in_spec sc); assumption. }
+    destruct e3.
+    { cbn [Binder.exec fst snd]. split; [exact C1 |]. split; [exact F3 |]. split; [discriminate |].
+      intros Hq _. destruct F2 as (_&_&_&_&_&_&?). destruct C2 as (_&_&_&_&_&_&?).
+      specialize (C5 ltac:(lia) Hvis2). discriminate. }
+    destruct (C4 eq_refl) as (v & Hv2 & Hv3).
+    assert (Hcap3 : cm_cap (s_store s3) <> None).
+    { destruct (sc_vis_in_spec sc) eqn:Ev; unfold vis_cm in *; rewrite Ev in *.
+      - cbn [cm_get] in Hv3. rewrite Hv3. discriminate.
+      - pose proof (C3 CmCap ltac:(discriminate)) as Hq. cbn [cm_get] in Hq. rewrite Hq. exact Hcap2. }
+    assert (Hevar3 : cm_evar (s_store s3) <> None).
+    { destruct (sc_vis_in_spec sc) eqn:Ev; unfold vis_cm in *; rewrite Ev in *.
+      - pose proof (C3 CmEvar ltac:(discriminate)) as Hq. cbn [cm_get] in Hq. rewrite Hq. exact Hevar2.
+      - cbn [cm_get] in Hv3. rewrite Hv3. discriminate. }
+    (* portion *)
+    destruct (update_cm_spec CmCap set_portion s3 C1 HK ltac:(discriminate) keeps_set_portion)
+      as ((D1 & D2 & D3) & D4 & D5).
+    destruct (exec (update_cm CmCap set_portion) s3) as [s4 e4]. cbn [fst snd] in *.
+    pose proof (frame_cm_trans _ _ _ F3 D2) as F4.
+    split; [exact D1 |]. split; [exact F4 |]. split.
+    - intros ->. destruct (D4 eq_refl) as (w & Hw3 & Hw4). cbn [cm_get] in Hw3, Hw4.
+      destruct (get_set_portion (cm_data w)) as (P1 & P2 & P3).
+      unfold cm_facts, cm_value. cbn [cm_get]. rewrite Hw4. cbn [cm_data].
+      split; [discriminate |].
+      split; [pose proof (D3 CmEvar ltac:(discriminate)) as Hq; cbn [cm_get] in Hq; rewrite Hq; exact Hevar3 |].
+      split; [| auto].
+      destruct (sc_vis_in_spec sc) eqn:Ev; unfold vis_cm in *; rewrite Ev in *.
+      + cbn [cm_get] in *. rewrite Hw4. cbn [cm_data]. rewrite P3.
+        rewrite Hv3 in Hw3. injection Hw3 as <-. cbn [cm_data]. apply get_set_visible.
+      + pose proof (D3 CmEvar ltac:(discriminate)) as Hq. rewrite Hq, Hv3. cbn [cm_data]. apply get_set_visible.
+    - intros Hq _. apply D5; [| exact Hcap3].
+      destruct F3 as (_&_&_&_&_&_&?). destruct D2 as (_&_&_&_&_&_&?). lia.
+  Qed.
+
+  (** reserveGPUs *)
+  Lemma reserve_gpus_spec s :
+    INV s -> M s ->
+    let s' := fst (exec (reserve_gpus sc) s) in
+    let r := snd (exec (reserve_gpus sc) s) in
+    INV s' /\ s_nfail s <= s_nfail s'
+    /\ cm_cap (s_store s') = cm_cap (s_store s) /\ cm_evar (s_store s') = cm_evar (s_store s)
+    /\ match fst r with
+       | ENone => M s' /\ Lab (sc_groups sc) (self (s_store s')) /\ all_idx (sc_groups sc) (s_store s') = Some (snd r)
+       | EInvalid => sc_groups sc = []
+       | EErr => True
+       end
+    /\ (s_nfail s' = s_nfail s -> dp_ok -> Live (s_store s) -> sc_groups sc <> [] ->
+        fst r = ENone /\ Live (s_store s')).
+  Proof.
+    intros HI HM. unfold reserve_gpus. destruct (sc_groups sc) as [| g gs] eqn:Eg.
+    - cbn [Binder.exec fst snd]. split; [exact HI |]. split; [lia |]. split; [reflexivity |]. split; [reflexivity |].
+      split; [reflexivity |]. intros _ _ _ Hne. contradiction.
+    - rewrite exec_bind.
+      assert (HL0 : Lab [] (self (s_store s))).
+      { unfold Lab. destruct (sc_multi sc); [intros x [] | intros x Hx; discriminate]. }
+      destruct (reserve_loop_spec (g :: gs) [] [] s HI HM HL0 eq_refl) as (R1 & R2 & R3 & R4 & R5 & R6).
+      destruct (exec (reserve_loop sc (g :: gs) []) s) as [s1 r1]. cbn [fst snd] in *.
+      destruct r1 as [idxs |]; cbn [Binder.exec fst snd].
+      + split; [exact R1 |]. split; [exact R2 |]. split; [exact R3 |]. split; [exact R4 |].
+        split; [destruct (R5 idxs eq_refl) as (A & B & C); auto |].
+        intros Hnf Hdp Hl _. destruct (R6 Hnf Hdp Hl) as (_ & Hl'). auto.
+      + split; [exact R1 |]. split; [exact R2 |]. split; [exact R3 |]. split; [exact R4 |].
+        split; [exact I |]. intros Hnf Hdp Hl _. destruct (R6 Hnf Hdp Hl) as ((x & Hx) & _). discriminate.
+  Qed.
+
+  Lemma Live_incl st st' : Live st -> incl (others st') (others st) -> Live st'.
+  Proof.
+    intros (Hsh & Han) Hi. split; [eapply SH_incl; eauto |].
+    unfold annotated in *. rewrite Forall_forall in *. intros p Hp. apply Han, Hi, Hp.
+  Qed.
+
+  Lemma all_idx_others gs st st' : others st' = others st -> all_idx gs st' = all_idx gs st.
+  Proof.
+    intros H. induction gs as [| g gs IH]; [reflexivity |]. simpl. rewrite IH, !rsv_idx_ridx, H. reflexivity.
+  Qed.
+
+  (** the binding call *)
+  Lemma bind_step s s1 r1 :
+    G s -> p_node (self (s_store s)) = 0 -> step (ABind true) s = (s1, r1) ->
+    G s1 /\ s_mem s1 = s_mem s /\ s_mark s1 = s_mark s /\ s_mark_end s1 = s_mark_end s
+    /\ s_nfail s <= s_nfail s1
+    /\ (r1 = ROk -> s_store s1 = set_self (s_store s) (with_node (self (s_store s)) 1))
+    /\ (r1 <> ROk -> s_store s1 = s_store s)
+    /\ (s_nfail s1 = s_nfail s -> r1 = ROk).
+  Proof.
+    intros HG Hn E. pose proof (step_spec _ _ _ _ _ _ E) as (Hm & Hk & Hke & [Hf | Hr]).
+    - pose proof (G_faulted _ _ _ _ HG ltac:(discriminate) Hf) as HG1.
+      destruct Hf as (-> & Hst & Hnf & _).
+      split; [exact HG1 |]. split; [exact Hm |]. split; [exact Hk |]. split; [exact Hke |]. split; [lia |].
+      split; [discriminate |]. split; [auto |]. intros; lia.
+    - destruct Hr as (_ & _ & Hnf & Hd & Hlog & Hhist). cbn [is_watch] in Hd.
+      destruct HG as (Hb & Hh & Hbi & He & Hnn). pose proof Hb as (Ha & Hn0 & Hrs & Hp & Ho).
+      destruct (do_bind _ _ _ _ Ha Hd) as [(_ & Hst & ->) | (Hne & _)]; [| contradiction].
+      split.
+      + split; [rewrite Hst; unfold base; simpl; auto 10 |].
+        unfold hist_ok. rewrite Hhist, Hlog, Hst. cbn [self set_self with_node p_node resp_outcome obs_of].
+        split; [constructor; [unfold node_obs; cbn [self_alive set_self self with_node p_node]; rewrite Ha; auto | exact Hh] |].
+        split; [rewrite binds_cons; cbn [is_bind_ok]; rewrite Hbi, Hn; reflexivity |].
+        split; [cbn [existsb is_bind_elsewhere]; exact He | auto].
+      + split; [exact Hm |]. split; [exact Hk |]. split; [exact Hke |]. split; [lia |].
+        split; [auto |]. split; [intros Hx; contradiction | auto].
   Qed.
 End Main.
